@@ -108,7 +108,12 @@ class System:
         path = machine_path or os.path.join(MACHINES, machine_name)
         p = {"mpf": {"default_platform_hz": 100, "plugins": []}, "bcp": []}
         if patches:
-            p = Util.dict_merge(p, patches)
+            p = dict(p)
+            for k, v in patches.items():
+                if isinstance(v, dict) and isinstance(p.get(k), dict):
+                    p[k] = Util.dict_merge(p[k], v)
+                else:
+                    p[k] = v
         defaults = {"playfields": {"playfield": {"tags": "default", "default_source_device": None}}}
         loader = _Loader(path, [config_file], defaults, p, spec_patches)
         config = loader.load_mpf_config()
